@@ -117,23 +117,97 @@ def template_fn_at(gen_lines, line):
     return None
 
 
-def run_unit(unit, repo=None, rlimit=30, vacuity=False, outdir=OUT, seed=None, keep_air=True, case=None):
+def unspecified_closure(lines):
+    """does this generated function contain a closure expression that carries no `ensures` (R15 output has one)?"""
+    import rsx
+    text = '\n'.join(lines)
+    mask = rsx.code_mask(text)
+    for m in re.finditer(r'(?:[(,=]|\bmove\b)\s*(\|[^|\n]*\|)', text):
+        if not mask[m.start(1)]:
+            continue
+        if re.match(r'\s*->\s*\(verif_ret', text[m.end():m.end() + 40]):
+            continue
+        return True
+    return False
+
+
+def unspecified_loop(lines):
+    """does this generated function contain a loop that carries no invariant / decreases / ensures clause?"""
+    import rsx
+    text = '\n'.join(lines)
+    mask = rsx.code_mask(text)
+    for m in re.finditer(r'\b(while|for|loop)\b', text):
+        if not mask[m.start()]:
+            continue
+        depth = 0
+        brace = None
+        for j in range(m.end(), len(text)):
+            if not mask[j]:
+                continue
+            c = text[j]
+            if c in '([':
+                depth += 1
+            elif c in ')]':
+                depth -= 1
+            elif c == '{' and depth == 0:
+                brace = j
+                break
+            elif c == ';' and depth == 0:
+                break
+        if brace is None:
+            continue
+        if not re.search(r'\b(invariant|invariant_except_break|decreases|ensures)\b', text[m.end():brace]):
+            return True
+    return False
+
+
+UNRESOLVED = [r'no method named `(\w+)` found', r'no (?:function or )?associated (?:item|function or constant) named `(\w+)` found',
+              r'cannot find function `(\w+)` in this scope', r'cannot find value `(\w+)` in this scope']
+
+
+def run_unit(unit, repo=None, rlimit=30, vacuity=False, outdir=OUT, seed=None, keep_air=True, case=None, lift=None):
+    """R17 driver: when Verus cannot resolve a name (a helper or constant that a refactoring introduced and the template does
+    not list), generate again with that helper inlined at its call sites / that constant lifted, at most 3 times."""
+    lift = set(lift or [])
+    res = _run_unit(unit, repo, rlimit, vacuity, outdir, seed, keep_air, case, lift)
+    if case or vacuity:
+        return res
+    for _round in range(3):
+        if res['status'] != 'engine-failure':
+            break
+        names = set()
+        for e in res['engine_errors']:
+            for pat in UNRESOLVED:
+                names.update(re.findall(pat, e))
+        names -= lift
+        if not names:
+            break
+        lift |= names
+        res2 = _run_unit(unit, repo, rlimit, vacuity, outdir, seed, keep_air, case, lift)
+        if not res2.get('lifted'):
+            break           # nothing could be lifted: keep the first (clearer) diagnosis
+        res = res2
+    return res
+
+
+def _run_unit(unit, repo=None, rlimit=30, vacuity=False, outdir=OUT, seed=None, keep_air=True, case=None, lift=None):
     """Generate and verify one unit. Returns a result dict; never raises for verifier findings."""
     t0 = time.time()
     res = {'unit': unit, 'status': 'ok', 'engine_errors': [], 'failures': [], 'functions': [], 'wall_s': 0.0}
     try:
         if case:
-            path, meta = vx_gen.generate(unit, outdir, repo or vx_gen.REPO, False, case)
+            path, meta = vx_gen.generate(unit, outdir, repo or vx_gen.REPO, False, case, lift)
         elif vacuity:
             path, meta = vx_gen.generate_vacuity(unit, outdir, repo or vx_gen.REPO, vacuity)
         else:
-            path, meta = vx_gen.generate(unit, outdir, repo or vx_gen.REPO)
+            path, meta = vx_gen.generate(unit, outdir, repo or vx_gen.REPO, False, None, lift)
     except ExtractError as e:
         res['status'] = 'engine-failure'
         res['engine_errors'].append('extraction: %s' % e)
         res['wall_s'] = time.time() - t0
         return res
     res['meta'] = {k: meta[k] for k in ('rules', 'slices', 'dropped_statements')}
+    res['lifted'] = meta.get('lifted', [])
     res['gen_file'] = path
     gen_text = open(path, encoding='utf-8').read()
     gen_lines = gen_text.split('\n')
@@ -264,6 +338,18 @@ def run_unit(unit, repo=None, rlimit=30, vacuity=False, outdir=OUT, seed=None, k
         if f:
             gl = prim[0].get('line_start', 0) if prim else 0
             src = '%s (fn at line %d)' % (f['file'], f['src_line'])
+        if f and unspecified_loop(gen_lines[f['gen_start'] - 1:f['gen_end']]):
+            # a loop the template does not annotate (new, or rewritten so that its anchor is gone) cuts the proof off: what fails
+            # after it says nothing about the code
+            res['status'] = 'engine-failure'
+            res['engine_errors'].append('obligation not decidable: %s contains a loop without an invariant (%s: %s)' % (fname, kind, text[:120]))
+            continue
+        if f and unspecified_closure(gen_lines[f['gen_start'] - 1:f['gen_end']]):
+            # Verus knows nothing about the result of a closure without `ensures`; R15 gives contracts only to the closures the
+            # template names. A failed obligation here may be that ignorance, not the code: undecided, never an alarm.
+            res['status'] = 'engine-failure'
+            res['engine_errors'].append('obligation not decidable: %s contains a closure without a contract (%s: %s)' % (fname, kind, text[:120]))
+            continue
         res['failures'].append({'obligation': name, 'unit': unit, 'function': fname, 'kind': kind, 'text': text,
                                 'message': msg, 'props': props, 'source': src,
                                 'rendered': d.get('rendered', '')[:3000]})
@@ -290,7 +376,7 @@ def run_unit(unit, repo=None, rlimit=30, vacuity=False, outdir=OUT, seed=None, k
         with cf.ThreadPoolExecutor(max_workers=10) as ex:
             for fn_key, guards in meta['case_splits'].items():
                 for i, g in enumerate(guards):
-                    jobs.append((fn_key, i, g, ex.submit(run_unit, unit, repo, rlimit, False, outdir, seed, keep_air, (fn_key, i))))
+                    jobs.append((fn_key, i, g, ex.submit(_run_unit, unit, repo, rlimit, False, outdir, seed, keep_air, (fn_key, i), lift)))
             for fn_key, i, g, fut in jobs:
                 cr = fut.result()
                 impl_hdr, fname = fn_key.rsplit('::', 1)
@@ -298,6 +384,7 @@ def run_unit(unit, repo=None, rlimit=30, vacuity=False, outdir=OUT, seed=None, k
                 if cr['status'] == 'engine-failure':
                     res['status'] = 'engine-failure'
                     res['engine_errors'].append('case twin %s [%s]: %s' % (nm, g, '; '.join(cr['engine_errors'])[:200]))
+                res['lifted'] = sorted(set(res.get('lifted', []) + cr.get('lifted', [])))
                 for f in cr['failures']:
                     f = dict(f)
                     f['obligation'] = f['obligation'].replace(unit + '/', unit + '/[case %s] ' % g, 1)
